@@ -24,6 +24,24 @@ def parts(ctx):
             ctx.traces_validated += 1
             if ld.get('expect') == 'may-overlap' and gd.get('observed') == 'overlap':
                 confirmed += 1
+    # (c) subjects under several producer goroutines, observed directly and through the unsafe pass-throughs
+    uni = 0
+    for c, g, l in R.run_kind(ctx, 'subjoverlap', shards=4):
+        ctx.evaluations += 1
+        gd, ld = R.parse_res(g), R.parse_res(l)
+        ctx.distinct.add(c.split(' ', 2)[2])
+        if flag(gd) or flag(ld):
+            ctx.violation('C02 subject overlap run could not be evaluated', f'{c}\n# implementation: {g}\n# model: {l}\n', no_input=True)
+        elif gd.get('grammar') != 'ok' and ld.get('expect') == 'serialized':
+            ctx.violation('C01/C02: a subscriber of a subject received a notification after its terminal', f'{c}\n# implementation: {g}\n# model: {l}\n')
+        elif ld.get('expect') == 'serialized' and gd.get('observed') != 'serialized':
+            ctx.violation(f"C02: callbacks of one subscriber of a subject overlap (max inside = {gd.get('maxinside')})", f'{c}\n# implementation: {g}\n# model: {l}\n')
+        else:
+            ctx.traces_validated += 1
+            if ld.get('expect') == 'may-overlap' and gd.get('observed') == 'overlap':
+                uni += 1
+    if uni:
+        ctx.notes.append(f'unicast subject observed through an unsafe pass-through: overlap seen in {uni} set-ups (same root cause as the unsafe pass-through finding: NewSubscriber reuses the non-locking subscriber and unicast delivers outside its mutex)')
     # the static known finding, re-derived from the regenerated table on every run
     for r in catalogue():
         if r['PassThrough'] and not serialized(r) and r['Name'] in KNOWN_UNSAFE_PASSTHROUGH:
